@@ -194,8 +194,10 @@ def build(o, repo, work, witness=False):
         if o.loops:
             cmd += ["--apply-loop-contracts"]
         cmd += list(o.gi_flags or [])
-        if not o.malloc_may_fail:
+        if not o.malloc_may_fail and not o.gi_malloc_default:
             # under --dfcc the malloc model is linked by goto-instrument: the flag has to be given here
+            # (gi_malloc_default: keep goto-instrument's default model, in which an allocation may fail and
+            #  object sizes are bounded by __CPROVER_max_malloc_size - the proof then covers MORE behaviours)
             cmd += ["--no-malloc-may-fail"]
         cmd += [a, b]
         rc, out, _ = run(cmd, 600, 12, work)
